@@ -24,7 +24,7 @@ CLAIMED = {
          "threads: the harness does not own the schedule; with one relaxed atomic as the only shared state this is evidence of independence, not an exploration of interleavings. NEON/LSX/wasm paths are not compiled here", "DESIGN.md 6 (C10)"),
  "C18": ("E-ALLOC", "proptest generation of histories; exhaustive enumeration of the failing allocation request (fail k-th, fail all from k) per history; tracking allocator with live set, opaque check, poison on free",
          "fault_enumeration: for every generated deflate / inflate / inflateBack history (with dictionary, copy, reset, early End of the copy) every allocation request index is made to fail in both modes; the failing call must return Z_MEM_ERROR, the caller's ordinary clean-up (End on every stream incl. the destination of a failed copy) must leave the live set empty with no double/foreign free, re-init must work and surviving streams must reproduce the control output",
-         "zlib-rs makes one allocation per init/copy, so N is 1..2 per history and the enumeration in k is complete; the gz layer (Rust global allocator) is not covered by this check", "DESIGN.md 6 (C18)"),
+         "zlib-rs makes one allocation per init/copy, so N is 1..2 per history and the enumeration in k is complete; the gz layer allocates through the Rust global allocator: there the harness's counting / failing #[global_allocator], armed only during gz calls, plays the caller-supplied allocator (balanced after gzclose / refused gzopen, every failing request enumerated)", "DESIGN.md 6 (C18)"),
  "C14": ("E-TWIN", "proptest generation of (history, cut point, continuation); twin execution in lock-step with per-call comparison; poisoning allocator",
          "exploration: deflateCopy/inflateCopy twins (original, copy, never-copied control; generated interleaving, one twin ended early) and reset twins (deflateReset, inflateReset, inflateReset2, Deflate::reset, Inflate::reset vs fresh init with the current parameters) must agree per call on status, bytes consumed/produced, totals, adler, data_type and output bytes",
          "inflateReset with windowBits 0 is compared through inflateReset2 only (like zlib, the window taken from the first header becomes the stream's parameter); deflateResetKeep is not claimed equal to a fresh init (it keeps the window by contract)", "DESIGN.md 6 (C14)"),
@@ -42,7 +42,7 @@ CLAIMED = {
          "round-trip oracle uses zlib-rs's own inflate (as the property states); legality of schedules follows the zlib manual (flush repeated until avail_out > 0, only FINISH after FINISH)", "DESIGN.md 6 (C01)"),
  "C02": ("E-INF", "proptest generation of untrusted byte strings x any windowBits x schedules; guard-page buffers + process isolation + counting oracles",
          "exploration: noise, mutated and faulted streams under every windowBits inflateInit2 accepts, with 0/1-byte buffers, header capture capacities and the one-shot helpers; every caller buffer ends at a PROT_NONE page, the worker process is the observation unit (signal/abort = violation, confirmed and shrunk from the journaled tape)",
-         "guard pages see overruns of caller buffers only (library-internal overruns need the asan variant); a hang inside one call is reported as exit 2 (inconclusive) by the watchdog; inflateBack is covered by C19's check", "DESIGN.md 6 (C02)"),
+         "guard pages see overruns of caller buffers only (library-internal overruns need the asan variant); a hang inside one call is reported as exit 2 (inconclusive) by the watchdog; one case in eight goes through inflateBack (C19's engine, safety oracles only) and header-capture cases also run on streams reused after inflateReset", "DESIGN.md 6 (C02)"),
  "C04": ("E-INF", "proptest generation of byte strings x 4 schedules of (avail_in, avail_out, flush) per case; metamorphic oracle against the one-call baseline",
          "exploration: every generated schedule (chunks from 0/1 byte to > 32 KiB, all five flush modes, then deliver-everything) must reach the baseline's (output bytes, final status class, total_in) on libz_rs_sys::inflate and zlib_rs::Inflate",
          "decoder window kept >= the largest distance of generated streams (zlib's outcome is schedule-dependent otherwise); mutated/noise inputs use 32 KiB windows", "DESIGN.md 6 (C04)"),
@@ -54,7 +54,7 @@ CLAIMED = {
          "one known finding (raw exact fit: Z_OK instead of Z_STREAM_END) is matched by exact signature; a bound that is exceeded is a different signature", "DESIGN.md 6 (C07)"),
  "C08": ("E-INF", "proptest generation of wrapped streams with targeted syntax-preserving corruptions x trailer-splitting schedules; universal end-of-stream oracle recomputing Adler-32/CRC-32/ISIZE/FHCRC",
          "exploration: on every STREAM_END the consumed trailer and header CRC are recomputed from the bytes actually output with bitwise reference checksums; payload/trailer/FHCRC-covered bit flips must end in DATA_ERROR under every schedule (outputs > 32 KiB per call, 1-byte calls, splits inside the trailer)",
-         "trusts R-CK; > 4 GiB streams (length mod 2^32) are not generated", "DESIGN.md 6 (C08)"),
+         "trusts R-CK; one gzip stream of 4 GiB + 3 MiB (made by zlib-ng), intact and with ISIZE / CRC damaged, covers 'length mod 2^32' (zlib-ng's CRC-32 is the reference there: a bitwise CRC over 4 GiB would take minutes)", "DESIGN.md 6 (C08)"),
  "C11": ("E-DEF", "proptest generation of flush-heavy deflate sessions; incremental strict reference decoding at every completed flush point",
          "exploration: at every PARTIAL/SYNC/FULL flush that returns with avail_out > 0 the bytes so far decode (R-DEC strict) to exactly the input supplied so far; marker 00 00 FF FF and byte alignment for SYNC/FULL; after FULL all later data decodes with only the history since that point",
          "flush points are those the zlib manual defines (call returned with avail_out > 0); trusts R-DEC", "DESIGN.md 6 (C11)"),
@@ -81,6 +81,7 @@ man = {
  },
  "engines": [
   {"name": "vcheck", "path": "harness/", "serves_properties": sorted(CLAIMED), "kind_free_text": "Rust worker binary: proptest-driven tape generator with shrinking, enumeration phases, independent reference oracles; python driver ./check spawns 16 workers, confirms and shrinks failures, merges evidence"},
+  {"name": "vcheck-fuzz", "path": "fuzz/", "serves_properties": sorted(CLAIMED), "kind_free_text": "cargo-fuzz crate with one libFuzzer + AddressSanitizer target (VERIF_FUZZ_PROP selects the property); the fuzz input is the same tape, decoded by the same generator and judged by the same oracle as in vcheck; run by the thorough tier of every check (16 processes sharing a corpus), crash artifacts are confirmed on the ref worker before they count"},
  ],
  "checks": [],
  "not_applicable": [],
